@@ -16,7 +16,7 @@ ASSUMPTIONS = [
     "per-key three-way rule: a path takes the side that changed it, or the common value when both agree; otherwise conflict",
 ]
 MONITORS = "outcome of tree._merge / tree.merge compared with an independent per-key three-way merge"
-REQUIRED_COUNTERS = ["policies_as_one_shot_iterables", "merges_of_listings_with_another_hash_name", "common_deletion_cases", "sides_derived_from_loaded_ancestor", "non_canonical_stored_listings", "policy_sequences", "ancestor_unavailable_cases", "merge_calls", "accepted", "refused", "order_pairs_compared", "merge_via_store"]
+REQUIRED_COUNTERS = ["file_on_one_side_directory_on_the_other", "policies_as_one_shot_iterables", "merges_of_listings_with_another_hash_name", "common_deletion_cases", "sides_derived_from_loaded_ancestor", "non_canonical_stored_listings", "policy_sequences", "ancestor_unavailable_cases", "merge_calls", "accepted", "refused", "order_pairs_compared", "merge_via_store"]
 EXHAUSTIVE = {"quick": True, "thorough": True}
 
 POLICIES = [None, ["add"], ["add", "remove"], ["add", "change"], ["add", "remove", "change"]]
@@ -210,7 +210,7 @@ def run_shard(ctx):
         ctx.guard(case, one)
 
     # ---------------------------------------------------------------- merge() through a real store
-    nstore = 400 if ctx.tier == "quick" else 4000
+    nstore = 1600 if ctx.tier == "quick" else 8000
     for case, rng in ctx.cases(base + nrand + nstore, salt="store"):
         if case < base + nrand:
             continue
@@ -300,6 +300,13 @@ def run_shard(ctx):
                         theirs[n] = f"{rng.randrange(1, 4):032x}"
                 ours, theirs = well_formed(ours), well_formed(theirs)
                 res.count("disallowed_additions_next_to_allowed_operations")
+            if rng.random() < 0.12 and "data" not in anc and "data/new" not in anc:
+                # one side adds a file where the other side adds a directory of the same name (each listing is well-formed, the two together are not)
+                ours.pop("data/new", None)
+                theirs.pop("data", None)
+                ours["data"] = f"{rng.randrange(1, 4):032x}"
+                theirs["data/new"] = f"{rng.randrange(1, 4):032x}"
+                res.count("file_on_one_side_directory_on_the_other")
             ff = rng.random()
             if ff < 0.15:
                 ours = dict(anc)  # pure fast-forward
